@@ -135,3 +135,146 @@ def gen_cases(rng, tier):
             how = rng.choice(["assign", "set_value", "client"])
             ops.append([how, rng.randrange(2), rng.choice(vals[kind])])
         yield {"op": "nested", "kind": kind, "nhandlers": nh, "actors": actors, "ops": ops}
+
+
+# --------------------------------------------------------------------------
+# C16: rmonevent called from inside a callback (a later-registered callback is removed while the event is in flight)
+
+def run_inflight(case, outcome):
+    from indi.client.client import BaseClient
+    from indi.message import IndiMessage
+
+    n, i, j, e, how, coro = case["n"], case["i"], case["j"], case["events"], case["how"], case.get("coro", [])
+    sent = []
+
+    class Cl(BaseClient):
+        def send_message(self, msg):
+            sent.append(msg)
+
+    client = Cl()
+    logs = [[] for _ in range(n)]
+    uuids = {}
+    current = [0]
+
+    class Rec:
+        def __init__(self, k):
+            self.k = k
+
+        def plain(self, ev):
+            logs[self.k].append(current[0])
+            if self.k == i and current[0] == 0:
+                if how == "uuid":
+                    client.rmonevent(uuid=uuids[j])
+                else:
+                    client.rmonevent(callback=recs[j].coro if j in coro else recs[j].plain)
+
+        async def coro(self, ev):
+            logs[self.k].append(current[0])
+
+    recs = [Rec(k) for k in range(n)]
+
+    async def main():
+        client.process_message(IndiMessage.from_string(
+            '<defTextVector device="D" name="P" state="Ok" perm="rw"><defText name="x">start</defText></defTextVector>'))
+        for k in range(n):
+            fn = recs[k].coro if (k in coro and k != i) else recs[k].plain
+            uuids[k] = client.onevent(callback=fn, device="D", vector="P", element="x")
+        from indi.client import events  # noqa
+        for t in range(e):
+            current[0] = t
+            client.process_message(IndiMessage.from_string(
+                '<setTextVector device="D" name="P" state="Ok"><oneText name="x">v%d</oneText></setTextVector>' % t))
+            for _ in range(5):
+                await asyncio.sleep(0)
+
+    asyncio.run(main())
+    outcome.nontrivial.add(json_key(case))
+    outcome.count("inflight-removal:" + how)
+    # value events only (the set message raises one ValueUpdate per changed element)
+    line = "%d %d %d %d %s" % (n, i, j, e, enc_list(lambda l: enc_list(str, l), logs))
+    return [Query("spec c16inflight " + line, "True", "oracle",
+                  "callback %d was removed by callback %d while an event was being dispatched and was still handed an event (or another callback lost one): logs %s" % (j, i, logs))]
+
+
+def json_key(case):
+    import json
+    return json.dumps(case, sort_keys=True)
+
+
+def gen_inflight(rng, tier):
+    for n in (2, 3, 4, 5):
+        for i in range(n):
+            for j in range(i + 1, n):
+                for how in ("uuid", "callback"):
+                    for coro in ([], [j], list(range(n))):
+                        if tier != "thorough" and n >= 4 and rng.random() < 0.6:
+                            continue
+                        yield {"op": "inflight", "n": n, "i": i, "j": j, "events": 3, "how": how, "coro": coro}
+
+
+# --------------------------------------------------------------------------
+# C14: handlers declared with @on(...) on a driver class that is instantiated more than once
+
+def run_two_instances(case, outcome):
+    from indi.device import Driver, events, properties
+    from indi.device.events import on
+    from indi.routing import Router
+
+    calls = []
+
+    class Dev(Driver):
+        name = "D"
+        g = properties.Group("G", vectors=dict(v=properties.TextVector("V", elements=dict(e0=properties.Text("E0", default="a"), e1=properties.Text("E1", default="a")))))
+
+        def __init__(self, tag, **kw):
+            self.tag = tag
+            super().__init__(**kw)
+
+        @on(g.v.e0, events.Write)
+        def on_write(self, ev):
+            calls.append((self.tag, "write", ev.new_value))
+            if case.get("veto") == self.tag:
+                ev.prevent_default = True
+
+        @on(g.v.e0, events.Change)
+        def on_change(self, ev):
+            calls.append((self.tag, "change", ev.new_value))
+
+    instances = [Dev(k, router=Router()) for k in range(case["instances"])]
+    counts = []
+    for step, (k, how, value) in enumerate(case["ops"]):
+        del calls[:]
+        el = instances[k].g.v.e0
+        before = el._value
+        if how == "set_value":
+            el.set_value(value)
+        else:
+            el.value = value
+        vetoed = how == "set_value" and case.get("veto") is not None
+        if how == "set_value":
+            counts.append(sum(1 for c in calls if c[0] == k and c[1] == "write"))
+        if before != value and not vetoed:
+            counts.append(sum(1 for c in calls if c[0] == k and c[1] == "change"))
+    outcome.nontrivial.add(json_key(case))
+    outcome.count("instances:%d" % case["instances"])
+    return [Query("spec c14own " + enc_list(str, counts), "True", "oracle",
+                  "a Write/Change handler declared on the driver class was not called exactly once for an operation on its own driver's element: counts %s" % counts)]
+
+
+def gen_two_instances(rng, tier):
+    for instances in (1, 2, 3):
+        for veto in (None,):
+            for _ in range(6 if tier == "thorough" else 3):
+                ops = [[rng.randrange(instances), rng.choice(["set_value", "assign"]), rng.choice(["a", "b", "c", "d"])] for _k in range(rng.randint(2, 8))]
+                yield {"op": "twoinst", "instances": instances, "veto": veto, "ops": ops}
+
+
+_run_nested = run_impl
+
+
+def run_impl(case, outcome):  # noqa: F811
+    if case["op"] == "inflight":
+        return run_inflight(case, outcome)
+    if case["op"] == "twoinst":
+        return run_two_instances(case, outcome)
+    return _run_nested(case, outcome)
